@@ -4,8 +4,9 @@ import Ecal.Model.Cascade
 Driver of C02 (payload format: see `go/cmd/harness/c02.go`).
 
 * `driver C02`        : for every cascade plan of the case, executes the plan on the transition
-  system `Ecal.Cascade.step` (sequential schedule on worker 0 — by the theorems of `Props.C02`
-  the observables do not depend on the schedule) and prints the expected canonical result.
+  system `Ecal.Cascade.step` (sequential schedule on worker 0 — the quantities printed are fixed by the
+  theorems of `Props.C02` in every final state: `errors_exact`, `finish_notification_exactly_once`,
+  `all_handed_monitors_finish`, `wait_after_cascade`) and prints the expected canonical result.
 * `driver C02 replay` : payload = `<plan> ~ <trace> ; <trace> …`; maps the recorded trace tokens of
   every cascade to events of the transition system and replays them with `step`, checking the
   recorded counter values. Result: `ok <number of events>` or `reject <cascade> <position> <token> <why>`.
@@ -140,6 +141,9 @@ def expected (p : Plan) (c : Casc) : String :=
   let r : Option (State × Array Nat) := do
     let s := init p.workers p.failFirst
     let s ← if c.wait then step s .register else some s
+    let s ← match addEv c 0 0 with
+      | .addEvent _ true _ => step s .regHandler   -- AddEvent of a triggering root event: observer first
+      | _ => some s
     let s ← step s (addEv c 0 0)
     let work := match s.mons[0]? with
       | some r => if r.phase == .queued then [0] else []
@@ -199,6 +203,10 @@ def replayTok (c : Casc) (s : State) (tok : String) : Except String State := do
   let phaseOf (m : Nat) : Option Phase := (s.mons[m]?).map (·.phase)
   match kind, a with
   | 'W', _ => stepE s .register
+  | 'J', _ => stepE s .regHandler
+  | 'K', [m] => do
+    chk (match phaseOf m with | some .fresh => false | none => false | _ => true) "AddTask returned for a monitor that was not handed over"
+    pure s
   | 'R', [n] => do
     let s' ← stepE s .waitReturns
     chk (n == (allErrors s').length) s!"AllErrors after the return: model {(allErrors s').length} entries, code {n}"
@@ -206,9 +214,14 @@ def replayTok (c : Casc) (s : State) (tok : String) : Except String State := do
   | 'P', _ => stepE s .post
   | 'D', _ => stepE s .dropQueue
   | 'O', _ =>
+    -- the pump calls the callbacks of its snapshot in registration order: wait, handler, queue
     if tok == "Ow" then stepE s (.observerRuns .wait)
-    else if tok == "Oh" then stepE s (.observerRuns .handler)
-    else stepE s (.observerRuns .queue)
+    else if tok == "Oh" then do
+      chk (s.dWait == 0) "handler callback before the wait callback"
+      stepE s (.observerRuns .handler)
+    else do
+      chk (s.dWait == 0 && s.dHandler == 0) "queue callback before the wait/handler callbacks"
+      stepE s (.observerRuns .queue)
   | 'A', [m, n] =>
     match addEv c m n with
     | .addEvent m true rs => stepE s (.addEvent m true rs)
@@ -234,9 +247,11 @@ def replayTok (c : Casc) (s : State) (tok : String) : Except String State := do
     | none => .error "unknown monitor"
   | 'T', [m] => stepE s (.setErrors m)
   | 'H', [m] => stepE s (.notified m)
-  | 'F', [m, u, _n] => do
+  | 'F', [m, u, n] => do
     let s' ← match phaseOf m with
-      | some .fresh => stepE s (.addEvent m false [])
+      | some .fresh => do
+        chk ((c.nodes[n]?).map (·.kind) == some 's') "Skip of an event the plan calls triggering"
+        stepE s (.addEvent m false [])
       | some (.running _) => stepE s (.taskDone m)
       | some (.errSet _) => stepE s (.errFinish m)
       | _ => .error "descendantFinished for a monitor which cannot finish"
@@ -248,7 +263,7 @@ def replayTok (c : Casc) (s : State) (tok : String) : Except String State := do
     pure s
   | 'X', [n] => do
     let s' ← stepE s .allErrors
-    chk (n ≤ (s.mons.filter fun m => !m.failed.isEmpty).length) "AllErrors returned more entries than failed tasks"
+    chk (1 ≤ n && n ≤ (s.mons.filter fun m => !m.failed.isEmpty).length) "AllErrors entries seen by the error observer: more than failed tasks, or none"
     pure s'
   | _, _ => .error "unknown token"
 
@@ -256,7 +271,14 @@ def replayCasc (p : Plan) (c : Casc) (trace : String) : Except String Nat := do
   let toks := if trace.trimAscii.toString.isEmpty then [] else trace.trimAscii.toString.splitOn ","
   let mut s := init p.workers p.failFirst
   let mut k := 0
+  -- a tree without the call sites `cascade.handler.registered` / `cascade.added` (hooks/C02b.patch):
+  -- the registration of the finish-handler observer is not visible, assume it where the code has it
+  let legacy := toks.any (·.startsWith "A") && !(toks.any (·.startsWith "K"))
   for t in toks do
+    if legacy && t.startsWith "A0." then
+      match step s .regHandler with
+      | some s' => s := s'
+      | none => throw s!"{k} {t} regHandler not enabled"
     match replayTok c s t with
     | .ok s' => s := s'
     | .error e => throw s!"{k} {t} {e}"
@@ -266,7 +288,7 @@ def replayCasc (p : Plan) (c : Casc) (trace : String) : Except String Nat := do
   chk (s.mons.all fun m => m.phase.finished) "unfinished monitor at the end of the trace"
   chk (!c.wait || s.waitReturned) "wait did not return in the trace"
   chk (!s.panicked) "model assertion failed"
-  pure k
+  pure (if legacy then k * 2 + 1 else k * 2)
 
 def replayCase (payload : String) : String :=
   match payload.splitOn " ~ " with
@@ -283,7 +305,7 @@ def replayCase (payload : String) : String :=
           | .error e => (i, 0, e)
         match rs.find? (fun (_, _, e) => e != "") with
         | some (i, _, e) => s!"reject {i} {e}"
-        | none => s!"ok {rs.foldl (fun acc (_, n, _) => acc + n) 0}"
+        | none => s!"ok {rs.foldl (fun acc (_, n, _) => acc + n / 2) 0} legacy={rs.foldl (fun acc (_, n, _) => acc + n % 2) 0}"
   | _ => "bad-payload"
 
 def run (args : List String) : IO Unit :=
